@@ -50,13 +50,19 @@ func init() {
 	replayers["arrf"] = func(r *Run, f []string) string {
 		switch f[0] {
 		case "filter", "sortc":
+			// a case line may carry the entries of its maps in any order (shuffledLine); the oracles read the value trees in
+			// the codec's canonical order, the Go values are the same
 			args := []*V{}
 			for _, a := range f[3:] {
-				args = append(args, ParseV(a))
+				args = append(args, ParseV(a).Canon())
 			}
-			return arrfCase(r, strings.Join(f, " "), unhexField(f[1]), ParseV(f[2]), args, nil)
+			return arrfCase(r, strings.Join(f, " "), unhexField(f[1]), ParseV(f[2]).Canon(), args, nil)
 		case "numf":
 			x, steps := parseNumfLine(f)
+			x = x.Canon()
+			for i := range steps {
+				steps[i].Arg = steps[i].Arg.Canon()
+			}
 			return chainCase(r, strings.Join(f, " "), x, steps)
 		case "render":
 			return replayers["render"](r, f)
@@ -77,6 +83,56 @@ var arrayParamFilters = map[string]bool{"compact": true, "concat": true, "join":
 
 // returnsArray: filters whose result is an array (so `| join: ','` can follow)
 var returnsArray = map[string]bool{"compact": true, "concat": true, "map": true, "reverse": true, "sort": true, "sort_natural": true, "uniq": true}
+
+// hasMultiMap: some map (or keyed map) in v has two or more entries
+func hasMultiMap(v *V) bool {
+	if v == nil {
+		return false
+	}
+	if (v.Kind == 'M' && len(v.KVs) > 1) || (v.Kind == 'K' && len(v.Fs) > 1) {
+		return true
+	}
+	for _, x := range v.Xs {
+		if hasMultiMap(x) {
+			return true
+		}
+	}
+	for _, kv := range v.KVs {
+		if hasMultiMap(kv[0]) || hasMultiMap(kv[1]) {
+			return true
+		}
+	}
+	for _, f := range v.Fs {
+		if hasMultiMap(f.V) {
+			return true
+		}
+	}
+	return hasMultiMap(v.In)
+}
+
+// shuffledLine: the case line of (name, recv, args) — for every second case that holds a map of two or more entries,
+// with the entries of every map in a pseudo-random order (drawn from an RNG of the run's seed and the case, so the
+// choice is the same in every shard and in a replay). The Go values and the oracles are those of the canonical trees;
+// only the model sees the order of the line.
+func shuffledLine(r *Run, mk func(recv *V, args []*V) string, recv *V, args []*V) string {
+	line := mk(recv, args)
+	multi := hasMultiMap(recv)
+	for _, a := range args {
+		multi = multi || hasMultiMap(a)
+	}
+	if !multi {
+		return line
+	}
+	gs := NewRNG(r.Seed, "arrf/shuffle/"+line)
+	if !gs.Chance(50) {
+		return line
+	}
+	as := make([]*V, len(args))
+	for i, a := range args {
+		as[i] = a.Shuffled(gs)
+	}
+	return mk(recv.Shuffled(gs), as)
+}
 
 func arrfLine(name string, recv *V, args []*V) string {
 	line := filterCaseLine(name, recv, args)
@@ -933,7 +989,10 @@ func arrfStream(r *Run) {
 				if !r.Mine() {
 					continue
 				}
-				line := arrfLine(c.Name, rep, c.Args)
+				line := shuffledLine(r, func(v *V, as []*V) string { return arrfLine(c.Name, v, as) }, rep, c.Args)
+				if line != arrfLine(c.Name, rep, c.Args) {
+					r.Count("entries=shuffled")
+				}
 				var res string
 				if ri == 0 {
 					res = arrfCase(r, line, c.Name, rep, c.Args, nil)
@@ -979,6 +1038,9 @@ func arrfStream(r *Run) {
 					expr += " | join: ','"
 				}
 				src := "{{ " + expr + " }}" + recSep + "{{ a | join: ',' }}"
+				if gs := NewRNG(r.Seed, "arrf/shuffle/render/"+EncEnv(env)+src); gs.Chance(50) {
+					env = ShuffledEnv(env, gs)
+				}
 				cl := renderCaseLine(engineCfg{}, "", 0, src, env)
 				res := renderImpl(engineCfg{}, "", 0, src, RealiseEnv(env))
 				r.Count("gen=render")
@@ -1066,7 +1128,10 @@ func arrfStream(r *Run) {
 			if !r.Mine() {
 				continue
 			}
-			line := arrfLine(c.Name, recv, c.Args)
+			line := shuffledLine(r, func(v *V, as []*V) string { return arrfLine(c.Name, v, as) }, recv, c.Args)
+			if line != arrfLine(c.Name, recv, c.Args) {
+				r.Count("entries=shuffled")
+			}
 			res := arrfCase(r, line, c.Name, recv, c.Args, nil)
 			r.Count("gen=boundary")
 			r.Count("filter=" + c.Name)
@@ -1260,6 +1325,14 @@ func arrfStream(r *Run) {
 			continue
 		}
 		line := numfLine(x, steps)
+		if gs := NewRNG(r.Seed, "arrf/shuffle/"+line); hasMultiMap(x) && gs.Chance(50) { // as shuffledLine: the model sees the entries in another order
+			ss := make([]numStep, len(steps))
+			for j, st := range steps {
+				ss[j] = numStep{Name: st.Name, Arg: st.Arg.Shuffled(gs)}
+			}
+			line = numfLine(x.Shuffled(gs), ss)
+			r.Count("entries=shuffled")
+		}
 		res := chainCase(r, line, x, steps)
 		r.Count("gen=chain")
 		r.Count(fmt.Sprintf("chainlen=%d", ns))
